@@ -10,7 +10,8 @@ PROP = {
         "Verif.Properties.C26.visibility",
         "Verif.Properties.C26.aborted_invisible",
         "Verif.Properties.C26.names_exact",
-        "Verif.Properties.C26.add_remove_same_tx_witness",
+        "Verif.Properties.C26.add_remove_same_tx",
+        "Verif.Properties.C26.commit_never_aborts",
     ],
     "streams": [
         {"name": "contracts", "driver": "drv_contracts",
@@ -26,7 +27,9 @@ PROP = {
                   "tryUpdate never aborts, a failed tryUpdate changes nothing and a successful one is update, remove is refused "
                   "for code declaring enums, an aborted transaction changes nothing and can be erased from any history, a "
                   "committed one is seen by every later transaction (runHist (h1++h2) = run h2 from what h1 committed), names "
-                  "lists exactly the deployed names once each in every reachable state.  Tied to /repo by the `contracts` "
+                  "lists exactly the deployed names once each in every reachable state, add followed by remove of the same "
+                  "name in one transaction commits with nothing deployed, a transaction aborts only at one of its operations "
+                  "(never at commit).  Tied to /repo by the `contracts` "
                   "stream: histories of add/update/tryUpdate/remove/get/borrow/names over 3 accounts x 3 names with 10 sources "
                   "(valid, compatible, incompatible, ill-typed, wrongly named, with enum, interface, unparsable, failing "
                   "initializer, field removed) as Cadence transactions on the real runtime with persistent ledger and code "
@@ -35,8 +38,8 @@ PROP = {
                   "refines it is shown by refinement testing only.  Validity / declared name / enums / interface / failing "
                   "initializer / update compatibility of the 10 sources are input bits computed by the real parser, checker "
                   "and validator on every run (Exec rejects stale bits).  borrow is observed only in transactions that do not "
-                  "change contracts before it (per-transaction program caching is not modelled).  Known finding: add + remove "
-                  "of the same contract in one transaction (modelled, witness theorem).",
+                  "change contracts before it (per-transaction program caching is not modelled).  Fixed defect 2936d79: add + remove "
+                  "of the same contract in one transaction failed with an internal error (now add_remove_same_tx).",
     "assumptions": ["host discards code changes of failed transactions (internal/acct)",
                     "storage health check on (test runtime default)"],
     "trusted_base": ["spec machine Verif.Model.Contracts (is the spec)", "Go harness cmd/vharness/stream_contracts.go, "
